@@ -284,8 +284,14 @@ func runC14(c *vlib.Check) {
 		rs := rv.rs
 		k := rsaKey(rs.bits, rs.topP, rs.topQ, rs.e)
 		label := fmt.Sprintf("RSA-%d p0=%02X q0=%02X e=%d", rs.bits, rs.topP, rs.topQ, rs.e)
+		// handed returns the key as it is handed to the register builder: for the bare variant a fresh key without CRT values
+		// on every call (crypto/x509 and crypto/rsa precompute them in place when they first use a key, and cases run in parallel)
+		handed := func() *rsa.PrivateKey { return k }
 		if rv.bare {
-			k = &rsa.PrivateKey{PublicKey: rsa.PublicKey{N: k.N, E: k.E}, D: k.D, Primes: []*big.Int{k.Primes[0], k.Primes[1]}}
+			full := k
+			handed = func() *rsa.PrivateKey {
+				return &rsa.PrivateKey{PublicKey: rsa.PublicKey{N: full.N, E: full.E}, D: full.D, Primes: []*big.Int{full.Primes[0], full.Primes[1]}}
+			}
 			label += " (CRT values not precomputed)"
 		}
 		for _, f := range []struct {
@@ -295,7 +301,7 @@ func runC14(c *vlib.Check) {
 			f := f
 			cases = append(cases, keyCase{label + " private " + f.n,
 				func(cl *kmipclient.Client) kmipclient.ExecRegister {
-					return cl.Register().WithKeyFormat(f.f).RsaPrivateKey(k, usage)
+					return cl.Register().WithKeyFormat(f.f).RsaPrivateKey(handed(), usage)
 				},
 				func(gp *payloads.GetResponsePayload) error {
 					got, err := gp.RsaPrivateKey()
